@@ -1191,3 +1191,85 @@ B('c10-benign-elif-reorder', 'C10', SF,
                 return move_value + k['innermost-pkt-pos']
             else:
                 raise Exception()''')
+
+# =========================================================================== C14
+S('c14-search-raw-offset', 'C14', F,
+  '''            match = until_marker.search(
+                search_buffer, 0
+            )''',
+  '''            match = until_marker.search(
+                raw, offset
+            )''')
+S('c14-window-from-start', 'C14', F,
+  '''            max_next_offset_allowed = offset + self._search_buffer_length
+            search_buffer = raw[offset:max_next_offset_allowed]
+        else:
+            search_buffer = raw[offset:]
+
+        count = search_buffer.find(until_marker)''',
+  '''            max_next_offset_allowed = offset + self._search_buffer_length
+            search_buffer = raw[:max_next_offset_allowed]
+        else:
+            search_buffer = raw[offset:]
+
+        count = search_buffer.find(until_marker)''', 'R14-raw-relative-to-cursor')
+S('c14-len-raw-outside-shortcut', 'C14', F,
+  '''        next_offset = offset + count
+        setattr(pkt, self.field_name, raw[offset:next_offset])
+
+        return next_offset + extra_count
+
+    def pack_regexp''',
+  '''        next_offset = min(offset + count, len(raw) - 1)
+        setattr(pkt, self.field_name, raw[offset:next_offset])
+
+        return next_offset + extra_count
+
+    def pack_regexp''', 'R14-raw-relative-to-cursor')
+S('c14-child-at-zero', 'C14', SF,
+  '''            offset = self.prototype_field.unpack(
+                pkt=pkt, raw=raw, offset=offset, **k
+            )''',
+  '''            offset = self.prototype_field.unpack(
+                pkt=pkt, raw=raw[offset:], offset=0, **k
+            ) + offset''')
+S('c14-raw-find-absolute', 'C14', F,
+  '''        count = search_buffer.find(until_marker)
+        assert count >= 0''',
+  '''        count = raw.find(until_marker) - offset
+        assert count >= 0''', 'R14-raw-relative-to-cursor')
+S('c14-driver-innermost-zero', 'C14', PK,
+  '''        k['innermost-pkt-pos'] = offset
+        try:
+            for name, f, _, unpack in self.get_fields():''',
+  '''        k['innermost-pkt-pos'] = 0
+        try:
+            for name, f, _, unpack in self.get_fields():''', 'R14-entry-offset')
+S('c14-bits-reads-at-fixed-pos', 'C14', F,
+  '''            offset = self.I.unpack(pkt, raw, offset, **k)''', '''            offset = self.I.unpack(pkt, raw, k['innermost-pkt-pos'], **k)''', 'R14-child-gets-cursor')
+S('c14-peek-previous-byte', 'C14', F,
+  '''        chunk = raw[offset:next_offset]
+        if len(chunk) != byte_count:
+            raise Exception(
+                "Unpacked %i bytes but expected %i" % (len(chunk), byte_count)
+            )
+
+        setattr(pkt, self.field_name, chunk)
+        return next_offset
+
+    def _unpack_variable_size_field''',
+  '''        chunk = raw[offset:next_offset]
+        if len(chunk) != byte_count or (offset and raw[offset - 1:offset] == b'\\\\'):
+            raise Exception(
+                "Unpacked %i bytes but expected %i" % (len(chunk), byte_count)
+            )
+
+        setattr(pkt, self.field_name, chunk)
+        return next_offset
+
+    def _unpack_variable_size_field''', 'R14-raw-relative-to-cursor')
+B('c14-benign-inline-bound', 'C14', F,
+  '''        next_offset = offset + self.byte_count
+        integer = self.struct_obj.unpack(raw[offset:next_offset])[0]''',
+  '''        next_offset = offset + self.byte_count
+        integer = self.struct_obj.unpack(raw[offset:offset + self.byte_count])[0]''')
